@@ -193,7 +193,7 @@ type c32Plan struct {
 	oldTree  *rf.Tree // the tree before that (overwritten claim)
 }
 
-var c32ProofVariants = []string{"valid", "valid", "valid", "wrong-index", "wrong-leaf", "foreign-leaf", "other-session-leaf", "wrong-signer", "tampered-sibling", "stale-root"}
+var c32ProofVariants = []string{"valid", "valid", "valid", "valid", "valid", "valid", "wrong-index", "wrong-leaf", "foreign-leaf", "other-session-leaf", "wrong-signer", "tampered-sibling", "stale-root"}
 
 func (w *c32World) ph(sbh int64) int64 { return rf.ProofHeight(sbh, w.win, w.bps) }
 
@@ -214,16 +214,55 @@ func genC32Plans(rt *rapid.T, w *c32World) []*c32Plan {
 		np := rapid.IntRange(1, 3).Draw(rt, "plansInSession")
 		for j := 0; j < np; j++ {
 			p := &c32Plan{id: len(plans), sbh: sbh, salt: int64(len(plans)+1) * 100000}
+			// a plan starts out legitimate (in-session node, staked app on a chain both serve, size within
+			// [minimum, allowance], claim inside the window) and then gets 0-2 deviations
 			p.claimant = rapid.IntRange(0, len(w.nodes)-1).Draw(rt, "claimant")
-			if rapid.IntRange(0, 9).Draw(rt, "strangerClaims") == 0 {
-				p.claimant = len(w.nodes)
+			if p.claimant == w.victim && rapid.IntRange(0, 2).Draw(rt, "keepVictim") > 0 {
+				p.claimant = (p.claimant + 1) % len(w.nodes)
 			}
-			p.app = rapid.SampledFrom([]int{0, 0, 0, 1, 1, c32AppU, c32AppU, c32AppGhost}).Draw(rt, "app")
-			p.chain = rapid.SampledFrom([]string{"0001", "0001", "0001", "0001", "0021", "0021", "0040"}).Draw(rt, "chain")
+			p.app = rapid.SampledFrom([]int{0, 0, 1}).Draw(rt, "app")
+			p.chain = "0001"
+			faults := map[string]bool{}
+			nFaults := rapid.SampledFrom([]int{0, 0, 0, 1, 1, 1, 1, 2}).Draw(rt, "nFaults")
+			for f := 0; f < nFaults; f++ {
+				faults[rapid.SampledFrom([]string{"early", "late", "under-min", "over", "unsupported-chain", "app-not-on-chain", "ghost-app", "appU", "stranger", "victim", "0021"}).Draw(rt, "fault")] = true
+			}
+			switch {
+			case faults["ghost-app"]:
+				p.app = c32AppGhost
+			case faults["appU"]:
+				p.app = c32AppU
+			}
+			switch {
+			case faults["unsupported-chain"]:
+				p.chain = "0040"
+			case faults["app-not-on-chain"]:
+				p.chain = "0021"
+				if p.app == 0 {
+					p.app = 1
+				}
+			case faults["0021"]:
+				p.chain = "0021"
+				if p.app == 1 {
+					p.app = 0
+				}
+			}
+			switch {
+			case faults["stranger"]:
+				p.claimant = len(w.nodes)
+			case faults["victim"] && w.victim >= 0:
+				p.claimant = w.victim
+			}
 			ph, sessEnd := w.ph(sbh), sbh+w.bps-1
 			a := w.genAllowance(p.app)
 			size := func() int {
-				switch rapid.SampledFrom([]string{"mid", "mid", "min", "allowance", "over", "under-min"}).Draw(rt, "sizeClass") {
+				class := rapid.SampledFrom([]string{"mid", "mid", "min", "allowance"}).Draw(rt, "sizeClass")
+				if faults["over"] {
+					class = "over"
+				} else if faults["under-min"] {
+					class = "under-min"
+				}
+				switch class {
 				case "min":
 					return int(w.minProofs)
 				case "allowance":
@@ -239,7 +278,13 @@ func genC32Plans(rt *rapid.T, w *c32World) []*c32Plan {
 				return rapid.IntRange(int(w.minProofs), int(a)).Draw(rt, "size")
 			}
 			claimAt := func() int64 {
-				switch rapid.SampledFrom([]string{"window", "window", "window", "first", "last", "early", "late"}).Draw(rt, "claimTiming") {
+				timing := rapid.SampledFrom([]string{"window", "window", "first", "last"}).Draw(rt, "claimTiming")
+				if faults["early"] {
+					timing = "early"
+				} else if faults["late"] {
+					timing = "late"
+				}
+				switch timing {
 				case "first":
 					return sessEnd + 1
 				case "last":
@@ -251,7 +296,7 @@ func genC32Plans(rt *rapid.T, w *c32World) []*c32Plan {
 				}
 				return int64(rapid.IntRange(int(sessEnd+1), int(ph)).Draw(rt, "claimAt"))
 			}
-			kind := rapid.SampledFrom([]string{"normal", "normal", "normal", "normal", "cycle-at-maturity", "no-proof"}).Draw(rt, "planKind")
+			kind := rapid.SampledFrom([]string{"normal", "normal", "normal", "normal", "normal", "normal", "cycle-at-maturity", "no-proof"}).Draw(rt, "planKind")
 			switch kind {
 			case "cycle-at-maturity":
 				// everything in the block whose header reveals the entropy: claim, proof, claim again, proof again
@@ -278,7 +323,7 @@ func genC32Plans(rt *rapid.T, w *c32World) []*c32Plan {
 				nProofs := rapid.IntRange(1, 3).Draw(rt, "nProofs")
 				for q := 0; q < nProofs; q++ {
 					var pat int64
-					switch rapid.SampledFrom([]string{"mature", "mature", "mature", "at-maturity", "early", "around-expiry"}).Draw(rt, "proofTiming") {
+					switch rapid.SampledFrom([]string{"mature", "mature", "mature", "mature", "mature", "at-maturity", "early", "around-expiry"}).Draw(rt, "proofTiming") {
 					case "at-maturity":
 						pat = ph
 					case "early":
@@ -348,6 +393,7 @@ type c32Run struct {
 	snaps  map[int64]c32Snap
 	live   map[string]*c32Live
 	paid   map[string]int // payments per (node, session header)
+	expired map[string]bool
 	entr   int64
 	// bookkeeping for the non-trivial rule: per session header
 	rewardedHdr map[string]bool
@@ -493,7 +539,9 @@ func (r *c32Run) buildProof(h int64, sb *c32Sub) (msg *pocketTypes.MsgProof, tx 
 			Chain: p.chain, SessionHeight: p.sbh}, int(w.minProofs), p.salt+500)
 		tree = rf.BuildTree(p.sbh, ev)
 	}
+	// the entropy is the hash of block proofHeight-1: a tx of block h can only know the blocks below h
 	eh, known := rf.EntropyHash(r.n.BlockStore, w.ph(p.sbh))
+	known = known && h >= w.ph(p.sbh)
 	req := int64(0)
 	if known {
 		req = rf.RequiredIndex(eh, hdr, tree.Total())
@@ -587,7 +635,7 @@ func runC32(rt *rapid.T, c *harness.Case, w *c32World, plans []*c32Plan) {
 	}
 	rf.RegisterServicer(self, work, 0)
 
-	r := &c32Run{c: c, w: w, n: n, snaps: map[int64]c32Snap{}, live: map[string]*c32Live{}, paid: map[string]int{}, rewardedHdr: map[string]bool{}, rejectedHdr: map[string]bool{}}
+	r := &c32Run{c: c, w: w, n: n, snaps: map[int64]c32Snap{}, live: map[string]*c32Live{}, paid: map[string]int{}, expired: map[string]bool{}, rewardedHdr: map[string]bool{}, rejectedHdr: map[string]bool{}}
 	r.snapshot()
 	feeCollector := n.App.VerifAccountKeeper().GetModuleAddress(authTypes.FeeCollectorName).String()
 
@@ -635,6 +683,7 @@ func runC32(rt *rapid.T, c *harness.Case, w *c32World, plans []*c32Plan) {
 		for k, lc := range r.live {
 			if lc.expires <= h {
 				delete(r.live, k)
+				r.expired[k] = true
 				if r.paid[k] == 0 {
 					c.Label("expired-unproved")
 				}
@@ -693,6 +742,9 @@ func (r *c32Run) deliverClaim(h int64, sb *c32Sub) {
 	c.Opf("%s", sb.desc)
 	for _, why := range reasons {
 		c.Label("claim-" + why)
+	}
+	if undecided {
+		c.Label("claim-membership-undecided")
 	}
 	switch {
 	case h == p.sbh+w.bps:
@@ -757,6 +809,12 @@ func (r *c32Run) deliverProof(h int64, sb *c32Sub, feeCollector string, validSee
 		c.Label("proof-after-expiry")
 	case "no live claim":
 		c.Label("proof-without-claim")
+		if r.expired[key] {
+			c.Label("proof-after-expiry")
+		}
+	}
+	if lc != nil && h == lc.expires-1 {
+		c.Label("proof-in-last-live-block")
 	}
 	if h == w.ph(p.sbh) {
 		c.Label("proof-in-maturity-block")
